@@ -133,3 +133,38 @@ func init() {
 	user.Commands = cmds
 `}}})
 }
+
+func init() {
+	addMutant(Mutant{Name: "benign-header-encoder-array-and-subslices", Benign: true, Props: []string{"C01", "C02", "C03", "C04", "C06", "C14", "C19"},
+		Why: "the header encoder fills a [12]byte array through named sub-slices and returns fixed[:]",
+		Edits: []Edit{{File: "header.go", Old: `	buf := make([]byte, MaxHeaderLength)
+	version, err := h.Version.MarshalBinary()
+	if err != nil {
+		return nil, err
+	}
+	buf[0] = version[0]
+	buf[1] = uint8(h.Type)
+	buf[2] = uint8(h.SeqNo)
+	buf[3] = uint8(h.Flags)
+	binary.BigEndian.PutUint32(buf[4:], uint32(h.SessionID))
+	binary.BigEndian.PutUint32(buf[8:], h.Length)
+	return buf, nil`, New: `	version, err := h.Version.MarshalBinary()
+	if err != nil {
+		return nil, err
+	}
+	var fixed [MaxHeaderLength]byte
+	sessionID, length := fixed[4:8], fixed[8:MaxHeaderLength]
+	binary.BigEndian.PutUint32(sessionID, uint32(h.SessionID))
+	binary.BigEndian.PutUint32(length, h.Length)
+	fixed[0], fixed[1], fixed[2], fixed[3] = version[0], uint8(h.Type), uint8(h.SeqNo), uint8(h.Flags)
+	return fixed[:], nil`}}})
+	addMutant(Mutant{Name: "benign-packet-encoder-make-and-copy", Benign: true, Props: []string{"C01", "C02", "C03", "C04", "C05", "C14"},
+		Why: "the packet encoder makes the buffer at its final length and fills it with two copies",
+		Edits: []Edit{{File: "packet.go", Old: `	buf := make([]byte, 0, len(head)+len(p.Body))
+	buf = append(buf, head...)
+	buf = append(buf, p.Body...)
+	return buf, nil`, New: `	buf := make([]byte, len(head)+len(p.Body))
+	n := copy(buf, head)
+	copy(buf[n:], p.Body)
+	return buf, nil`}}})
+}
